@@ -923,6 +923,128 @@ def run_light(cfg, dt, t):
 
 
 # ---------------------------------------------------------------------------
+# (g) frame attached to an SGP4 orbit, used exactly at the TLE epoch and one second around it
+
+TLE_TEXT = """ISS (ZARYA)
+1 25544U 98067A   16333.80487076  .00003660  00000-0  63336-4 0  9996
+2 25544  51.6440 317.1570 0006082 266.5744 156.9779 15.53752683 30592"""
+
+
+def check_tle_frame(cfg, t):
+    from mc import world
+    from beyond.io.tle import Tle
+    from beyond.dates import timedelta
+    from beyond.orbits import StateVector
+    from beyond.frames.frames import orbit2frame
+
+    if "snap" not in _G:
+        get_ctx(DATES[7])
+    _G["ctx"] = None
+    world.restore(_G["snap"])
+    case = dict(kind="tle", config=cfg)
+    try:
+        orb = Tle(TLE_TEXT).orbit()
+        orbit2frame("T0", orb, None)
+        orbit2frame("TQ", orb, "QSW")
+        centres = {}
+        for k in (-1, 0, 1):
+            date = orb.date if k == 0 else orb.date + timedelta(seconds=k)
+            truth = orb.propagate(date)  # SGP4 osculating state (TEME) = where the frame's origin has to be
+            t_eme = arr(convert(truth.copy(form="cartesian"), "EME2000"))
+            for F in ("T0", "TQ"):
+                at_origin = arr(convert(truth.copy(form="cartesian"), F))
+                d = float(np.linalg.norm(at_origin[:3]))
+                if not t.margin("SGP4-orbit frame: reference orbit at the origin [m / 1e-6]", d, 1e-6, case):
+                    t.fail("tle-frame/origin", "a frame attached to an orbit is centred on that orbit at every date, the epoch included", case, 0.0, d,
+                           f"{F} at epoch{k:+d} s: the propagated reference orbit is {d:.3e} m from the origin")
+                c = arr(convert(StateVector(np.zeros(6), date, "cartesian", F), "EME2000"))
+                centres[(F, k)] = c
+                dc = float(np.linalg.norm(c[:3] - t_eme[:3]))
+                if dc > 1e-6:
+                    t.fail("tle-frame/centre", "the frame centre is the propagated orbit", case, t_eme[:3].tolist(), c[:3].tolist(), f"{F} at epoch{k:+d} s: {dc:.3e} m")
+                probe = StateVector(t_eme + np.array([500.0, -300.0, 200.0, 0.1, 0.2, -0.3]), date, "cartesian", "EME2000")
+                a, b = arr(convert(probe, F)), arr(convert(convert(probe, "MOD"), F))
+                tp, tv = tol_pv([arr(probe), a])
+                if float(np.linalg.norm(a[:3] - b[:3])) > tp or float(np.linalg.norm(a[3:] - b[3:])) > tv:
+                    t.fail("tle-frame/path", "A->C->B equals A->B", case, a.tolist(), b.tolist(), f"{F} at epoch{k:+d} s")
+                t.trans(6)
+        for F in ("T0", "TQ"):
+            v = float(np.linalg.norm(centres[(F, 0)][3:]))  # the origin is at rest in its frame: this is the orbit's speed
+            for k in (-1, 1):
+                jump = float(np.linalg.norm(centres[(F, 0)][:3] - centres[(F, k)][:3]))
+                # |c(t0 +- 1 s) - c(t0)| = |v| x 1 s within the curvature term a/2 x (1 s)^2 = 4.5 m
+                if not t.margin("SGP4-orbit frame: centre displacement over 1 s around the epoch, minus |v| x 1 s [m / 10 m]", abs(jump - v), 10.0, case):
+                    t.fail("tle-frame/continuity", "the frame centre moves continuously through the TLE epoch", case, v, jump, f"{F}: centre moves {jump:.1f} m between epoch and epoch{k:+d} s")
+    except LibraryRaised as e:
+        t.fail("tle-frame/raises", "frames attached to a TLE orbit convert like any other", case, "a state", str(e))
+    finally:
+        world.restore(_G["snap"])
+        _G["ctx"] = None
+    t.ev((cfg["eop"], "tle"))
+    t.states_add(6)
+    t.outcome(("tle",))
+
+
+# ---------------------------------------------------------------------------
+# (h) two EOP databases in one process, selected through config eop.dbname: results follow the CURRENT database
+
+
+def check_eop_switch(cfg, t):
+    from mc.ref import earthrot as er
+    from beyond.config import config as bc
+    from beyond.dates.eop import EopDb, Eop
+    from beyond.frames import orient
+
+    if cfg["eop"] != "real":
+        raise ValueError("eop-switch runs in the real-EOP worker group")
+    leap = _G["leap"]
+    if not _G.get("switch_db"):
+
+        class ShiftedEop:
+            """Second database: no polar motion, UT1-UTC = +0.25 s, leap seconds as usual."""
+
+            def __getitem__(self, mjd):
+                return Eop(x=0, y=0, dx=0, dy=0, deps=0, dpsi=0, lod=0, ut1_utc=0.25, tai_utc=leap.tai_utc(mjd))
+
+        EopDb.register(ShiftedEop, "verif-shifted")
+        _G["switch_db"] = True
+    saved = dict(bc["eop"])
+    try:
+        for order in (("default", "verif-shifted", "default"), ("verif-shifted", "default", "verif-shifted")):
+            for di in (7, 12, 8):
+                dt = DATES[di]
+                mjd = (datetime.date(dt[0], dt[1], dt[2]) - datetime.date(1858, 11, 17)).days
+                sod = dt[3] * 3600 + dt[4] * 60 + dt[5] + dt[6] * 1e-6 + (0 if order[0] == "default" else 7)  # distinct instants per order
+                for step, db in enumerate(order):
+                    case = dict(kind="eop-switch", config=cfg, date=list(dt), order=list(order), step=step)
+                    bc["eop"] = dict(saved, dbname=db)
+                    date = mk_date(dt)
+                    if order[0] != "default":
+                        from beyond.dates import timedelta
+
+                        date = date + timedelta(seconds=7)
+                    eop = ref_eop("real", mjd) if db == "default" else er.Eop(ut1_utc=0.25, tai_utc=leap.tai_utc(mjd))
+                    ref = er.EarthRotation(mjd, sod, eop, _nut_table())
+                    for a, b, Rref, tol in (("PEF", "TOD", ref.PEF_to_TOD(), SIDEREAL_TOL), ("ITRF", "EME2000", ref.ITRF_to_EME2000(), SIDEREAL_TOL + 4 * ANALYTIC_TOL),
+                                            ("TIRF", "CIRF", ref.TIRF_to_CIRF(), SIDEREAL_TOL), ("ITRF", "TIRF", ref.ITRF_to_TIRF(), ANALYTIC_TOL)):
+                        try:
+                            R = np.array(getattr(orient, a).convert_to(date, getattr(orient, b)), dtype=float)[:3, :3]
+                        except Exception as e:
+                            t.fail("eop-switch/raises", "conversions work under either registered EOP database", case, "matrix", repr(e))
+                            continue
+                        ang = er.rot_diff(R, Rref)
+                        t.trans(1)
+                        if not t.margin("EOP database switched in-process: edge vs reference of the current database [rad / tol]", ang, tol, case):
+                            t.fail(f"eop-switch/{a}-{b}", "Earth rotation follows the EOP of the currently selected database", case, Rref.tolist(), R.tolist(),
+                                   f"database {db!r} (step {step} of {order}): {a}->{b} differs by {ang:.3e} rad (tol {tol:.2e})")
+                    t.ev((cfg["eop"], "switch", tuple(dt), order, step))
+                    t.states_add(1)
+    finally:
+        bc["eop"] = saved
+    t.outcome(("eop-switch",))
+
+
+# ---------------------------------------------------------------------------
 # dispatch
 
 
@@ -932,6 +1054,10 @@ def check_case(case, t):
         return check_error_policy(cfg, case["date"], t)
     if case["kind"] == "history":
         return run_history(cfg, case["date"], case["hkind"], case["restore"], case["order"], t)
+    if case["kind"] == "tle":
+        return check_tle_frame(cfg, t)
+    if case["kind"] == "eop-switch":
+        return check_eop_switch(cfg, t)
     if case["kind"] == "light":
         return run_light(cfg, case["date"], t)
     ctx = get_ctx(case["date"])
@@ -966,6 +1092,10 @@ def run_unit(p, t):
         for dt in p["dates"]:
             run_light(cfg, dt, t)
         return
+    if p["part"] == "tle":
+        return check_tle_frame(cfg, t)
+    if p["part"] == "eop-switch":
+        return check_eop_switch(cfg, t)
     if p["part"] == "history":
         for hkind in HIST_KINDS:
             for restore_between in (True, False):
@@ -1033,6 +1163,10 @@ def units(tier, seed):
                 u.append((cfg, dict(part="light", config=cfg, dates=light[k : k + 6])))
         for i in (QUICK_HISTORY if tier == "quick" else THOROUGH_HISTORY)[kind]:
             u.append((cfg, dict(part="history", config=cfg, date=list(DATES[i]))))
+        if kind in ("real", "zero"):
+            u.append((cfg, dict(part="tle", config=cfg)))
+        if kind == "real":
+            u.append((cfg, dict(part="eop-switch", config=cfg)))
     cfg = {"eop": "error"}
     u.append((cfg, dict(part="policy-error", config=cfg, dates=[list(DATES[i]) for i in (QUICK_DATES["real"] if tier == "quick" else range(len(DATES)))])))
     return u
